@@ -143,6 +143,23 @@ std::string vf_run(const Case &c, vf::Ctx &ctx) {
   if (c.triple) { L.push_back(&c.c); S.push_back(&c.sc); }
   std::vector<Built> B;
   for (size_t i = 0; i < L.size(); i++) B.push_back(build(*L[i], *S[i]));
+  // every other case: where two lists hold blobs at the same position and one is a leading part of the other (or they are
+  // equal), both become views on one buffer - blobs cut out of a larger block are compared by content and length all the same
+  if ((c.a.size() + c.b.size()) % 2 == 0) {
+    bool shared = false;
+    for (size_t i = 0; i < B.size(); i++)
+      for (size_t j = 0; j < B.size(); j++) {
+        if (i == j) continue;
+        for (size_t k = 0; k < B[i].plain.size() && k < B[j].plain.size(); k++) {
+          rtosc_arg_val_t &x = B[i].plain[k], &y = B[j].plain[k];
+          if (x.type != 'b' || y.type != 'b' || x.val.b.len > y.val.b.len || x.val.b.data == y.val.b.data) continue;
+          if (x.val.b.len && memcmp(x.val.b.data, y.val.b.data, (size_t)x.val.b.len)) continue;
+          x.val.b.data = y.val.b.data;
+          shared = true;
+        }
+      }
+    if (shared) ctx.count("class.blobs_sharing_a_buffer");
+  }
   const char *N[3] = {"A", "B", "C"};
   auto CMP = [](const std::vector<rtosc_arg_val_t> &x, const std::vector<rtosc_arg_val_t> &y) { return rtosc_arg_vals_cmp(x.data(), y.data(), x.size(), y.size(), nullptr); };
   auto EQ = [](const std::vector<rtosc_arg_val_t> &x, const std::vector<rtosc_arg_val_t> &y) { return rtosc_arg_vals_eq(x.data(), y.data(), x.size(), y.size(), nullptr); };
